@@ -19,6 +19,7 @@ HEAD = "{" + B + "rtf1" + B + "ansi "
 FAMILIES = {
     "_RE_FIELD / _RE_HYPERLINK: repeated unclosed \\field{\\fldinst{": lambda n: HEAD + (B + "field{" + B + "fldinst{") * n,
     "_HEADER_FOOTER_PATTERNS: {\\header + blanks, never closed": lambda n: HEAD + "{" + B + "header" + " " * (n * 8),
+    "_HEADER_FOOTER_PATTERNS: repeated {\\header x, never closed": lambda n: HEAD + ("{" + B + "header x") * n,
     "_RE_INFO: repeated {\\info , never closed": lambda n: HEAD + ("{" + B + "info ") * n,
     "_RE_STYLESHEET: repeated {\\stylesheet": lambda n: HEAD + ("{" + B + "stylesheet") * n,
     "_RE_FOOTNOTE: {\\footnote + blanks, never closed": lambda n: HEAD + "{" + B + "footnote" + " " * (n * 8),
